@@ -168,6 +168,7 @@ let dispatch (op : string) (args : jv list) : jv =
   | "load_asdict_post", [d] -> of_res (fun x -> x) (load_asdict_post ops d)
   | "dump_pre", [j; s; g] ->
       of_res (fun x -> x) (dump_pre ops (j = JBool true) (s = JBool true) (graph_arg g))
+  | "validb", [g] -> jbool (validb ops (graph_arg g))
   | "close", [a; b; r; t] ->
       jbool (close_graph ops (num_arg r) (num_arg t) (graph_arg a) (graph_arg b))
   | _ -> failwith ("unknown op " ^ op)
